@@ -179,9 +179,9 @@ func (f *file) asyncReadNow(b []byte, readSoFar int, readAll bool, cb AsyncCallb
 	}
 
 	// handles (readAll == false) and (readAll == true && readSoFar != len(b)).
-	if err == sonicerrors.ErrWouldBlock {
-		// If readAll == true then read some without errors.
-		// We schedule an asynchronous read.
+	if err == sonicerrors.ErrWouldBlock || err == nil {
+		// If readAll == true then read some without errors: a short read (err == nil) is not the end of a read-all.
+		// We schedule an asynchronous read for the remainder.
 		f.scheduleRead(readSoFar, cb)
 	} else {
 		cb(err, readSoFar)
@@ -237,8 +237,9 @@ func (f *file) asyncWriteNow(b []byte, wroteSoFar int, writeAll bool, cb AsyncCa
 		return
 	}
 
-	// Handles (writeAll == false) and (writeAll == true && wroteSoFar != len(b)).
-	if err == sonicerrors.ErrWouldBlock {
+	// Handles (writeAll == false) and (writeAll == true && wroteSoFar != len(b)). A short write (err == nil) is not the
+	// end of a write-all: the remainder is written when the descriptor is writable again.
+	if err == sonicerrors.ErrWouldBlock || err == nil {
 		f.scheduleWrite(wroteSoFar, cb)
 	} else {
 		cb(err, wroteSoFar)
